@@ -6,8 +6,9 @@ CONSTANTS
   EraSecs = 64
   Epoch <- EpochScaled
   ForwardOnlyEraUnfold = FALSE
+  WholeSecondUnfold = FALSE
   RefSecs <- RefFew
-  RefNs <- RefNsExh
+  RefNs <- RefNsDeep
   Offs <- OffCls
   NsVals <- NsAll
 INVARIANTS RoundTrip Order RoundTripNs EraOK WellFormed Separable
